@@ -679,6 +679,9 @@ Qed.
 Lemma history_inv ops : forall s, Inv s -> Inv (fold_left rstep ops s).
 Proof. induction ops as [|o ops IH]; intros s I; [exact I|]. cbn [fold_left]. apply IH, rstep_inv, I. Qed.
 
+Lemma Inv_wfs s : Inv s -> wfs s.
+Proof. intros [W _]. exact W. Qed.
+
 (* After any history, a lookup through any object returns what the uncached
    getter returns on the object's current binding list. *)
 Theorem cache_coherent s0 ops w i ks :
